@@ -2,6 +2,7 @@ package sim
 
 import (
 	"fmt"
+	"io"
 	"strings"
 	"time"
 
@@ -11,15 +12,20 @@ import (
 // C16 — component handshake digest is exact; success requires the server's
 // <handshake/>.
 
-type c16Scenario struct {
+type c16Conn struct {
 	StreamID string `json:"stream_id"`
-	Secret   string `json:"secret"`
 	Reply    string `json:"reply"`
 	Header   int    `json:"header"`
 	DelayMs  int    `json:"reply_delay_ms"`
 	Stanzas  int    `json:"stanzas_after"`
-	Seg      int    `json:"segmentation"`
-	Latency  int64  `json:"latency_ns"`
+	EndBy    string `json:"session_ended_by,omitempty"` // how an established session ends before the next connection: close | cut
+}
+
+type c16Scenario struct {
+	Secret  string    `json:"secret"`
+	Conns   []c16Conn `json:"connections"` // the same Component connects again after each session
+	Seg     int       `json:"segmentation"`
+	Latency int64     `json:"latency_ns"`
 }
 
 var textAlphabet = []string{"a", "b", "Z", "0", "9", "-", "_", ".", " ", "&", "<", ">", "\"", "'", "]]>", "é", "ü", "✓", "日本", "\t", "/", "@", ":", "=", "%", "+", " ", "𝔘"}
@@ -59,31 +65,49 @@ func init() {
 
 func runC16(e *Engine, g G, o RunOpt) RunInfo {
 	sc := &c16Scenario{}
-	sc.StreamID = genText(g, "sid", true)
 	sc.Secret = genText(g, "secret", true)
-	sc.Reply = c16Replies[g.Weighted("reply", 8, 2, 2, 2, 2, 2, 2, 2, 2, 2, 2, 2)]
-	sc.Header = []int{HdrOK, HdrOKDecl}[g.N("hdr", 2)]
-	sc.DelayMs = []int{0, 0, 20, 3000}[g.N("delay", 4)]
-	sc.Stanzas = g.Range("stanzas", 0, 4)
+	n := 1 + g.Weighted("history", 6, 3, 1)
+	for i := 0; i < n; i++ {
+		c := c16Conn{StreamID: genText(g, "sid", true)}
+		c.Reply = c16Replies[g.Weighted("reply", 8, 2, 2, 2, 2, 2, 2, 2, 2, 2, 2, 2)]
+		c.Header = []int{HdrOK, HdrOKDecl}[g.N("hdr", 2)]
+		c.DelayMs = []int{0, 0, 20, 3000}[g.N("delay", 4)]
+		c.Stanzas = g.Range("stanzas", 0, 4)
+		c.EndBy = []string{"close", "cut"}[g.N("endby", 2)]
+		sc.Conns = append(sc.Conns, c)
+	}
 	sc.Seg, sc.Latency = netModes(g, e)
 
-	script := DefaultNeg()
-	script.StreamID = sc.StreamID
-	script.Header = sc.Header
-	script.DelayMs = sc.DelayMs
-
-	var gotDigest []string
-	var connectErr error
+	var scripts []NegScript
+	for _, c := range sc.Conns {
+		script := DefaultNeg()
+		script.StreamID = c.StreamID
+		script.Header = c.Header
+		script.DelayMs = c.DelayMs
+		scripts = append(scripts, script)
+	}
+	type attempt struct {
+		digests []string
+		err     error
+		state   xmpp.ConnState
+		sent    int
+		routed  int
+		estEv   int
+		reached bool
+	}
+	atts := make([]*attempt, len(sc.Conns))
 	var w *CompW
-	var stAfter xmpp.ConnState
-	sent := 0
 	e.Run(func() {
 		srv := NewServer(e, "comp."+SimDomain)
 		srv.Component = true
-		srv.Scripts = []NegScript{script}
+		srv.Scripts = scripts
 		srv.HandshakeOK = func(c *SrvConn, digest string) string {
-			gotDigest = append(gotDigest, digest)
-			switch sc.Reply {
+			if c.Idx >= len(atts) || atts[c.Idx] == nil {
+				return ""
+			}
+			at := atts[c.Idx]
+			at.digests = append(at.digests, digest)
+			switch sc.Conns[c.Idx].Reply {
 			case "handshake":
 				c.establish("handshake")
 				return "<handshake/>"
@@ -91,7 +115,7 @@ func runC16(e *Engine, g G, o RunOpt) RunInfo {
 				c.establish("handshake")
 				return "<handshake xmlns='jabber:component:accept'></handshake>"
 			case "err-conflict", "err-host-unknown", "err-not-authorized":
-				return fmt.Sprintf("<stream:error><%s xmlns='%s'/></stream:error></stream:stream>", strings.TrimPrefix(sc.Reply, "err-"), nsStreams)
+				return fmt.Sprintf("<stream:error><%s xmlns='%s'/></stream:error></stream:stream>", strings.TrimPrefix(sc.Conns[c.Idx].Reply, "err-"), nsStreams)
 			case "unexpected-message":
 				return "<message from='x@y' to='comp." + SimDomain + "'><body>hi</body></message>"
 			case "unexpected-features":
@@ -113,73 +137,111 @@ func runC16(e *Engine, g G, o RunOpt) RunInfo {
 		w = NewCompW(e, sc.Secret)
 		w.CatchAll()
 		if err := w.Create(); err != nil {
-			connectErr = err
 			return
 		}
-		connectErr, _ = e.Call("Component.Connect", w.Comp.Connect)
-		stAfter = xmpp.VerifComponentState(w.Comp)
-		e.Sleep(20 * time.Millisecond)
-		if len(srv.Conns) > 0 && !srv.Conns[0].Dead && sc.Reply != "malformed" && sc.Reply != "mismatched-tags" && sc.Reply != "undefined-entity" {
-			for i := 0; i < sc.Stanzas; i++ {
-				srv.Conns[0].Send(fmt.Sprintf("<message id='m%d' from='u@%s' to='comp.%s'><body>x</body></message>", i+1, SimDomain, SimDomain))
-				sent++
-				e.Yield("srv.more")
+		msg := 0
+		for i, c := range sc.Conns {
+			at := &attempt{}
+			atts[i] = at
+			evBefore := len(w.Events)
+			handledBefore := len(w.Handled)
+			at.err, _ = e.Call("Component.Connect", w.Comp.Connect)
+			at.state = xmpp.VerifComponentState(w.Comp)
+			for _, ev := range w.Events[evBefore:] {
+				if ev.State == xmpp.StateSessionEstablished {
+					at.estEv++
+				}
 			}
+			e.Sleep(20 * time.Millisecond)
+			if len(srv.Conns) <= i {
+				continue
+			}
+			at.reached = true
+			conn := srv.Conns[i]
+			if !conn.Dead && c.Reply != "malformed" && c.Reply != "mismatched-tags" && c.Reply != "undefined-entity" {
+				for k := 0; k < c.Stanzas; k++ {
+					msg++
+					conn.Send(fmt.Sprintf("<message id='m%d' from='u@%s' to='comp.%s'><body>x</body></message>", msg, SimDomain, SimDomain))
+					at.sent++
+					e.Yield("srv.more")
+				}
+			}
+			e.Sleep(30 * time.Second)
+			for _, h := range w.Handled[handledBefore:] {
+				if h.Kind == "message" {
+					at.routed++
+				}
+			}
+			if i == len(sc.Conns)-1 {
+				break
+			}
+			// end this connection before the component connects again
+			if !conn.Dead {
+				if c.EndBy == "close" {
+					conn.CloseGracefully()
+				} else {
+					conn.Pipe.Cli.CutAt = conn.End.TotalWritten
+					conn.Pipe.Cli.CutErr = io.EOF
+				}
+			}
+			e.Sleep(20 * time.Second)
 		}
-		e.Sleep(30 * time.Second)
 	})
-	info := RunInfo{Scenario: sc, Nontrivial: len(gotDigest) > 0}
+	info := RunInfo{Scenario: sc}
 	if e.Stuck != "" {
 		e.Violate("C16", "stuck", "%s", e.Stuck)
 	}
 	for _, p := range e.Panics {
 		e.Violate("C16", "panic:"+panicSite(p), "%s: %s", p.Where, p.Value)
 	}
-	want := handshakeDigest(sc.StreamID, sc.Secret)
-	switch {
-	case len(gotDigest) == 0:
-		e.Violate("C16", "no-handshake-sent", "the component never sent <handshake> (Connect error: %v)", connectErr)
-		return info
-	case len(gotDigest) > 1:
-		e.Violate("C16", "handshake-sent-twice", "%d handshakes sent", len(gotDigest))
-	case gotDigest[0] != want:
-		e.Violate("C16", "wrong-digest", "handshake %q, lower-case hex SHA-1 of id %q + secret is %q", gotDigest[0], sc.StreamID, want)
-	}
-	success := sc.Reply == "handshake" || sc.Reply == "handshake-long"
-	routed := 0
-	for _, h := range w.Handled {
-		if h.Kind == "message" {
-			routed++
+	for i, at := range atts {
+		if at == nil {
+			continue
 		}
-	}
-	if success {
-		if connectErr != nil {
-			e.Violate("C16", "good-handshake-rejected", "server answered <handshake/> but Connect returned %v", connectErr)
-		} else {
-			if stAfter != xmpp.StateSessionEstablished {
-				e.Violate("C16", "state-not-established", "Connect succeeded but the state is %s", StateName(stAfter))
+		c := sc.Conns[i]
+		if len(at.digests) > 0 {
+			info.Nontrivial = true
+		}
+		if i > 0 {
+			e.Probe("c16.reconnect")
+		}
+		want := handshakeDigest(c.StreamID, sc.Secret)
+		switch {
+		case len(at.digests) == 0:
+			e.Violate("C16", "no-handshake-sent", "connection #%d: the component never sent <handshake> (Connect error: %v)", i, at.err)
+			continue
+		case len(at.digests) > 1:
+			e.Violate("C16", "handshake-sent-twice", "connection #%d: %d handshakes sent", i, len(at.digests))
+		case at.digests[0] != want:
+			e.Violate("C16", "wrong-digest", "connection #%d: handshake %q, lower-case hex SHA-1 of id %q + secret is %q", i, at.digests[0], c.StreamID, want)
+		}
+		success := c.Reply == "handshake" || c.Reply == "handshake-long"
+		if success {
+			if at.err != nil {
+				e.Violate("C16", "good-handshake-rejected", "connection #%d: server answered <handshake/> but Connect returned %v", i, at.err)
+			} else {
+				if at.state != xmpp.StateSessionEstablished {
+					e.Violate("C16", "state-not-established", "connection #%d: Connect succeeded but the state is %s", i, StateName(at.state))
+				}
+				if at.routed != at.sent {
+					e.Violate("C16", "stanzas-not-routed", "connection #%d: %d stanzas sent after the handshake, %d routed", i, at.sent, at.routed)
+				}
 			}
-			if routed != sent {
-				e.Violate("C16", "stanzas-not-routed", "%d stanzas sent after the handshake, %d routed", sent, routed)
-			}
+			continue
 		}
-	} else {
-		if connectErr == nil {
-			e.Violate("C16", "established-without-handshake:"+sc.Reply, "server answered %s but Connect returned nil", sc.Reply)
+		if at.err == nil {
+			e.Violate("C16", "established-without-handshake:"+c.Reply, "connection #%d: server answered %s but Connect returned nil", i, c.Reply)
 		}
-		if stAfter == xmpp.StateSessionEstablished {
-			e.Violate("C16", "state-established-without-handshake:"+sc.Reply, "server answered %s and the state is SessionEstablished", sc.Reply)
+		if at.state == xmpp.StateSessionEstablished {
+			e.Violate("C16", "state-established-without-handshake:"+c.Reply, "connection #%d: server answered %s and the state is SessionEstablished after the failed Connect", i, c.Reply)
 		}
-		for _, ev := range w.Events {
-			if ev.State == xmpp.StateSessionEstablished {
-				e.Violate("C16", "established-announced-without-handshake:"+sc.Reply, "server answered %s and a SessionEstablished event was delivered", sc.Reply)
-				break
-			}
+		if at.estEv > 0 {
+			e.Violate("C16", "established-announced-without-handshake:"+c.Reply, "connection #%d: server answered %s and a SessionEstablished event was delivered", i, c.Reply)
 		}
-		if routed > 0 {
-			e.Violate("C16", "routed-without-handshake:"+sc.Reply, "%d stanzas routed although the handshake was answered with %s", routed, sc.Reply)
+		if at.routed > 0 {
+			e.Violate("C16", "routed-without-handshake:"+c.Reply, "connection #%d: %d stanzas routed although the handshake was answered with %s", i, at.routed, c.Reply)
 		}
-		e.Probe("c16.reply." + sc.Reply)
+		e.Probe("c16.reply." + c.Reply)
 	}
 	return info
 }
